@@ -9,4 +9,6 @@ import sys, os
 sys.path.insert(0, os.path.join(os.getcwd(), "engine"))
 from qbv import extract
 print("facts:", extract.facts_for("main"))
+# the full-workspace shape (RocksDB backend) is needed by C08 and C11; building it once takes a few minutes
+print("facts:", extract.facts_for("rocks"))
 PY
